@@ -3,7 +3,7 @@
 From Coq Require Import ZArith String List Ascii Bool Permutation Sorting.Sorted.
 Import ListNotations.
 From FV.C04 Require Import Text Model Proofs Corr.
-From FV.C02 Require Import Model Proofs ProofsSeries Corr.
+From FV.C02 Require Import Model Proofs ProofsSeries Regex Corr.
 From FV.C02.gen Require Import ResCfg.
 
 (* the header skip constants the model uses are the ones of the tree under test *)
@@ -15,6 +15,22 @@ Proof. split; reflexivity. Qed.
    next read of the same path) *)
 Theorem C02_reader_reads_file : reads_file_every_call = true.
 Proof. reflexivity. Qed.
+
+(* the two regular expressions the reader decides with (registered tree:
+   r'^[\*a-zA-Z]' and r'E\+?-?\d+'), under the search semantics of Regex.v, decide on
+   EVERY line exactly the predicates the model is written with.  The patterns
+   of the tree under test are parsed from its source into gen/ResRegex.v and
+   compared with these by the per-run obligation C02_patterns_tie. *)
+Theorem C02_name_pattern : forall l, re_search name_re_expected l = is_name_line l.
+Proof. exact name_re_is_name_line. Qed.
+Theorem C02_exp_pattern : forall l, re_search exp_re_expected l = has_exp l.
+Proof. exact exp_re_is_has_exp. Qed.
+(* non-vacuity: both answers occur, incl. the strings on which near-miss patterns differ *)
+Example C02_patterns_example :
+  map (re_search name_re_expected) [S "DISP"; S "*x"; S " x"; S "1.0E+00"; S ""] = [true; true; false; false; false]
+  /\ map (re_search exp_re_expected) [S "1.0E+00"; S "2E-5"; S "E5"; S "E+-5"; S "E-+5"; S "e+05"; S "7"; S "NAME"; S "E+"]
+     = [true; true; true; true; false; false; false; false; false].
+Proof. vm_compute. split; reflexivity. Qed.
 
 Section Statement.
   (* values as FrontISTR prints them (1.0000000000000000E+00): trusted facts
